@@ -1,14 +1,773 @@
-import Mathlib.Tactic.Linarith
-import JF.Model.Lifting
+import JF.Lemmas.Lifting
+import Mathlib.MeasureTheory.Measure.Lebesgue.Basic
 /-!
 # C05 — Lifting schemes route probability flow so that every unit's outflow is matched
-(placeholder: first easy theorem; the real theorems follow)
+
+Exact reading of `JF.Model.Lifting` (the model of `jellyfysh/lifting/*.py`) over an arbitrary linearly
+ordered field `K`, for any `Ops K` whose literal `0` is the field's zero (`Ops.rat` is one, see the
+corollaries over `ℚ` at the end).  The binary64 reading of the same definitions is what the driver
+`jf_lift` runs against the real classes, bit for bit.
+
+Vocabulary (from `JF/Lemmas/Lifting.lean`).  A table `tbl : List (K × ι)` lists `(derivative, identifier)`
+in insertion order; unit number `a` (an index into `tbl`) is the active one.
+`negOf tbl` is the list of the non-positive entries, negated, in insertion order (what the code keeps in
+`_negative_lifting_rates`/`_associated_identifiers`); "unit `k`" below is an index into `negOf tbl`,
+`n_k = (negOf tbl)[k].1 = |derivative of unit k|`, `N k = cumB (negOf tbl) k = n_0 + … + n_{k-1}`,
+`S = total (negOf tbl)`, `P a = posSum (tbl.take a)` the positive derivatives inserted before `a`,
+`q a = rate tbl a`.
+
+Results, all for tables of ANY size and insertion order whose derivatives sum to zero:
+
+* `chooseIdx_iff` (and `inside_iff`, `outside_iff`, `ratio_iff`): the scheme selects unit `k` iff the
+  position it computes lies in `(N k, N (k+1)]`;
+* `choose_negative`, `choose_negative_of_nodup`: the selected unit has a strictly negative derivative and no
+  error outcome occurs — under `0 < u` (inside, ratio) resp. `u < 1` (outside), hypotheses which the proof
+  forces: `inside_zero_draw_selects_zero_rate`, `ratio_zero_draw_selects_zero_rate`,
+  `outside_unit_draw_selects_zero_rate` show the code selecting a zero-derivative unit at the excluded
+  end point;
+* `sel_interval`: for a fixed active unit, the set of admissible draws selecting `k` is an interval `(lo, hi]`
+  (`[lo, hi)` for outside) inside the unit interval; `prob = max 0 (hi - lo)` is its length;
+  `selection_measure` (real reading): the Lebesgue measure of that set — the probability of selecting `k` —
+  is `prob` (the excluded end point of the draw is a null set);
+* `flow_balance` (any ordered field) and `flow_balance_measure` (ℝ, probabilities as Lebesgue measures):
+  `∑_{a : q a > 0} q a * prob sch tbl a k = n_k` for each of the three schemes: global balance of the
+  lifted flow;
+* `choose_deterministic`, `reset_forgets`, `ratio_independent`: the choice is a function of the table and the
+  draws; `choose_assertion`, `get_notRecorded`: the error outcomes;
+* `binary64_*`: the six known findings (`known_findings/C05.json`) as kernel-evaluated theorems about the
+  binary64 reading of the model.
+
+Nothing is left `_partial`.  What the theorems do NOT cover: rounding.  In binary64 the table does not sum to
+zero exactly, the partial sums round, and the fall-through branch can fire (`binary64_*_fall_through`); the
+float behaviour is tied to the real code by the bit-exact correspondence run and bounded by the flow oracle of
+`harness/props/c05.py`, not by a theorem.
 -/
 namespace JF.C05
 open JF JF.Lifting
 
-/-- a reset forgets everything: the state after `reset` does not depend on the history -/
+set_option linter.unusedSectionVars false
+variable {K : Type} [Field K] [LinearOrder K] [IsStrictOrderedRing K] {ι : Type}
+
+/-- derivative of unit `a` of the table (`0` beyond its end) -/
+def rate (tbl : List (K × ι)) (a : Nat) : K := (tbl.map Prod.fst).getD a 0
+
+private theorem rate_eq (tbl : List (K × ι)) {a : Nat} (ha : a < tbl.length) : rate tbl a = (tbl[a]).1 := by
+  simp [rate, List.getD_eq_getElem?_getD, ha]
+
+private theorem lt_of_rate_pos {tbl : List (K × ι)} {a : Nat} (h : 0 < rate tbl a) : a < tbl.length := by
+  by_contra hn
+  simp [rate, List.getD_eq_getElem?_getD, not_lt.mp hn] at h
+
+/-- the positive derivatives inserted before unit `a` -/
+def P (tbl : List (K × ι)) (a : Nat) : K := posSum (tbl.take a)
+/-- `N tbl k = n_0 + … + n_{k-1}` -/
+def N (tbl : List (K × ι)) (k : Nat) : K := cumB (negOf tbl) k
+/-- the sum of the magnitudes of the non-positive derivatives -/
+def S (tbl : List (K × ι)) : K := total (negOf tbl)
+/-- `|derivative|` of unit `k` of the negative list (`0` beyond its end) -/
+def nrate (tbl : List (K × ι)) (k : Nat) : K := ((negOf tbl).map Prod.fst).getD k 0
+
+private theorem nrate_eq (tbl : List (K × ι)) {k : Nat} (hk : k < (negOf tbl).length) :
+    nrate tbl k = ((negOf tbl)[k]).1 := by
+  simp [nrate, List.getD_eq_getElem?_getD, hk]
+
+private theorem N_succ (tbl : List (K × ι)) {k : Nat} (hk : k < (negOf tbl).length) :
+    N tbl (k + 1) = N tbl k + nrate tbl k := by
+  rw [nrate_eq tbl hk]; exact cumB_succ _ hk
+
+/-- hypotheses of the property: the table sums to zero, the active unit has a positive derivative -/
+structure Valid (tbl : List (K × ι)) (a : Nat) : Prop where
+  sum_zero : total tbl = 0
+  pos : 0 < rate tbl a
+
+theorem Valid.lt {tbl : List (K × ι)} {a : Nat} (V : Valid tbl a) : a < tbl.length := lt_of_rate_pos V.pos
+
+private theorem S_eq_posSum {tbl : List (K × ι)} (hz : total tbl = 0) : S tbl = posSum tbl := by
+  have := total_eq_posSum_sub tbl
+  unfold S; linarith
+
+private theorem P_nonneg (tbl : List (K × ι)) (a : Nat) : 0 ≤ P tbl a := posSum_nonneg _
+
+private theorem P_add_rate_le_S {tbl : List (K × ι)} {a : Nat} (V : Valid tbl a) : P tbl a + rate tbl a ≤ S tbl := by
+  rw [S_eq_posSum V.sum_zero, rate_eq tbl V.lt]
+  exact posSum_take_add_le tbl V.lt (by rw [← rate_eq tbl V.lt]; exact V.pos)
+
+/-- admissible draws: CPython's `random()` lies in `[0, 1)`; the inside and ratio schemes need the draw to
+be non-zero, the outside scheme needs it to be below one (the theorems below are false without, see
+`inside_zero_draw_selects_zero_rate` etc.) -/
+def DrawOK : Scheme → K → K → Prop
+  | .inside, u, _ => 0 < u ∧ u ≤ 1
+  | .outside, u, _ => 0 ≤ u ∧ u < 1
+  | .ratio, _, u2 => 0 < u2 ∧ u2 ≤ 1
+
+/-- the position each scheme hands to the common loop, in the exact reading -/
+def specPos (sch : Scheme) (tbl : List (K × ι)) (a : Nat) (u u2 : K) : K :=
+  match sch with
+  | .inside => P tbl a + rate tbl a * u
+  | .outside => S tbl - (P tbl a + rate tbl a * u)
+  | .ratio => S tbl * u2
+
+section ops
+variable (o : Ops K) (h0 : o.ofInt 0 = 0)
+include h0
+
+/-! ### what the code computes -/
+
+/-- `choose` is `chooseIdx` followed by the lookup of the identifier -/
+theorem choose_eq {tbl : List (K × ι)} {a : Nat} (V : Valid tbl a) (sch : Scheme) (u u2 : K) :
+    choose o sch tbl a u u2 = (chooseIdx o sch tbl a u u2).bind (lookup (negOf tbl)) := by
+  have hf := fill_eq o h0 tbl a u V.lt (by rw [← rate_eq tbl V.lt]; exact V.pos)
+  unfold choose chooseIdx
+  rw [hf]
+  cases sch <;> simp [getInside, getOutside, getRatio, select, position, Except.bind] <;>
+    split <;> simp_all
+
+/-- the position computed by the code is `specPos` -/
+theorem chooseIdx_eq {tbl : List (K × ι)} {a : Nat} (V : Valid tbl a) (sch : Scheme) (u u2 : K) :
+    chooseIdx o sch tbl a u u2 = selectIdx o (specPos sch tbl a u u2) (negOf tbl) := by
+  have hf := fill_eq o h0 tbl a u V.lt (by rw [← rate_eq tbl V.lt]; exact V.pos)
+  unfold chooseIdx
+  rw [hf]
+  cases sch <;>
+    simp [position, specPos, pySum_exact o h0, pyUniform_zero o h0, P, S, total, rate_eq tbl V.lt]
+
+/-- the common loop, for a position inside the stack of negative rates -/
+theorem selectIdx_iff (l : List (K × ι)) (hl : NonNeg l) (p : K) (hp0 : 0 < p) (hp1 : p ≤ total l) (k : Nat) :
+    selectIdx o p l = .ok k ↔ k < l.length ∧ cumB l k < p ∧ p ≤ cumB l (k + 1) := by
+  unfold selectIdx
+  rw [h0]
+  cases hw : walkIdx p l 0 with
+  | none =>
+    exfalso
+    have := (walkIdx_eq_none_iff p l hl 0 hp0).mp hw
+    linarith
+  | some k' =>
+    have h1 := (walkIdx_eq_some_iff p l hl 0 hp0 k').mp hw
+    simp only [zero_add] at h1
+    simp only [Except.ok.injEq]
+    constructor
+    · intro h; subst h; exact h1
+    · intro h
+      have := (walkIdx_eq_some_iff p l hl 0 hp0 k).mpr (by simpa using h)
+      rw [hw] at this
+      exact Option.some.inj this
+
+omit h0 in
+/-- the position is inside the stack `(0, S]` for every admissible draw -/
+private theorem specPos_mem {tbl : List (K × ι)} {a : Nat} (V : Valid tbl a) (sch : Scheme) {u u2 : K}
+    (hd : DrawOK sch u u2) : 0 < specPos sch tbl a u u2 ∧ specPos sch tbl a u u2 ≤ S tbl := by
+  have hq := V.pos
+  have hP := P_nonneg tbl a
+  have hS := P_add_rate_le_S V
+  cases sch <;> simp only [DrawOK] at hd <;> obtain ⟨hu0, hu1⟩ := hd <;> simp only [specPos]
+  · have : 0 < rate tbl a * u := mul_pos hq hu0
+    have : rate tbl a * u ≤ rate tbl a := by nlinarith
+    constructor <;> linarith
+  · have : 0 ≤ rate tbl a * u := mul_nonneg hq.le hu0
+    have : rate tbl a * u < rate tbl a := by nlinarith
+    constructor <;> linarith
+  · have hSpos : 0 < S tbl := by linarith
+    constructor
+    · exact mul_pos hSpos hu0
+    · nlinarith
+
+/-- **Pointwise characterisation.**  For every table that sums to zero, every positive active unit and every
+admissible draw, each scheme selects unit `k` iff the position it computes lies in `(N k, N (k+1)]`. -/
+theorem chooseIdx_iff {tbl : List (K × ι)} {a : Nat} (V : Valid tbl a) (sch : Scheme) {u u2 : K}
+    (hd : DrawOK sch u u2) (k : Nat) :
+    chooseIdx o sch tbl a u u2 = .ok k ↔
+      k < (negOf tbl).length ∧ N tbl k < specPos sch tbl a u u2 ∧ specPos sch tbl a u u2 ≤ N tbl (k + 1) := by
+  obtain ⟨hp0, hp1⟩ := specPos_mem V sch hd
+  rw [chooseIdx_eq o h0 V]
+  exact selectIdx_iff o h0 _ (negOf_nonneg tbl) _ hp0 hp1 k
+
+/-- inside first: unit `k` iff `N k < P a + q a * u ≤ N (k+1)` -/
+theorem inside_iff {tbl : List (K × ι)} {a : Nat} (V : Valid tbl a) {u : K} (hu0 : 0 < u) (hu1 : u ≤ 1)
+    (u2 : K) (k : Nat) :
+    chooseIdx o .inside tbl a u u2 = .ok k ↔
+      k < (negOf tbl).length ∧ N tbl k < P tbl a + rate tbl a * u ∧ P tbl a + rate tbl a * u ≤ N tbl (k + 1) :=
+  chooseIdx_iff o h0 V .inside (u2 := u2) ⟨hu0, hu1⟩ k
+
+/-- outside first: unit `k` iff `N k < S - (P a + q a * u) ≤ N (k+1)` -/
+theorem outside_iff {tbl : List (K × ι)} {a : Nat} (V : Valid tbl a) {u : K} (hu0 : 0 ≤ u) (hu1 : u < 1)
+    (u2 : K) (k : Nat) :
+    chooseIdx o .outside tbl a u u2 = .ok k ↔
+      k < (negOf tbl).length ∧ N tbl k < S tbl - (P tbl a + rate tbl a * u) ∧
+        S tbl - (P tbl a + rate tbl a * u) ≤ N tbl (k + 1) :=
+  chooseIdx_iff o h0 V .outside (u2 := u2) ⟨hu0, hu1⟩ k
+
+/-- ratio: unit `k` iff `N k < S * u2 ≤ N (k+1)`; neither the active unit nor its draw enter -/
+theorem ratio_iff {tbl : List (K × ι)} {a : Nat} (V : Valid tbl a) (u : K) {u2 : K} (hu0 : 0 < u2) (hu1 : u2 ≤ 1)
+    (k : Nat) :
+    chooseIdx o .ratio tbl a u u2 = .ok k ↔
+      k < (negOf tbl).length ∧ N tbl k < S tbl * u2 ∧ S tbl * u2 ≤ N tbl (k + 1) :=
+  chooseIdx_iff o h0 V .ratio (u := u) ⟨hu0, hu1⟩ k
+
+/-- some unit is always selected: no error outcome, no fall-through -/
+theorem chooseIdx_total {tbl : List (K × ι)} {a : Nat} (V : Valid tbl a) (sch : Scheme) {u u2 : K}
+    (hd : DrawOK sch u u2) : ∃ k, chooseIdx o sch tbl a u u2 = .ok k := by
+  obtain ⟨hp0, hp1⟩ := specPos_mem V sch hd
+  rw [chooseIdx_eq o h0 V]
+  unfold selectIdx
+  rw [h0]
+  cases hw : walkIdx (specPos sch tbl a u u2) (negOf tbl) 0 with
+  | some k => exact ⟨k, rfl⟩
+  | none =>
+    exfalso
+    have := (walkIdx_eq_none_iff _ _ (negOf_nonneg tbl) 0 hp0).mp hw
+    unfold S at hp1
+    linarith
+
+/-- **The selected unit has a strictly negative derivative** (index form) -/
+theorem chooseIdx_negative {tbl : List (K × ι)} {a : Nat} (V : Valid tbl a) (sch : Scheme) {u u2 : K}
+    (hd : DrawOK sch u u2) {k : Nat} (h : chooseIdx o sch tbl a u u2 = .ok k) :
+    k < (negOf tbl).length ∧ 0 < nrate tbl k := by
+  obtain ⟨hk, h1, h2⟩ := (chooseIdx_iff o h0 V sch hd k).mp h
+  refine ⟨hk, ?_⟩
+  rw [N_succ tbl hk] at h2
+  linarith
+
+/-- **The selected unit has a strictly negative derivative** (identifier form): the move never fails, and the
+identifier it returns is the identifier of a table entry whose derivative is `< 0`. -/
+theorem choose_negative {tbl : List (K × ι)} {a : Nat} (V : Valid tbl a) (sch : Scheme) {u u2 : K}
+    (hd : DrawOK sch u u2) :
+    ∃ r i, (r, i) ∈ tbl ∧ r < 0 ∧ choose o sch tbl a u u2 = .ok i := by
+  obtain ⟨k, hk⟩ := chooseIdx_total o h0 V sch hd
+  obtain ⟨hlt, hpos⟩ := chooseIdx_negative o h0 V sch hd hk
+  rw [nrate_eq tbl hlt] at hpos
+  refine ⟨-((negOf tbl)[k]).1, ((negOf tbl)[k]).2, ?_, by linarith, ?_⟩
+  · have hm : (((negOf tbl)[k]).1, ((negOf tbl)[k]).2) ∈ negOf tbl := List.getElem_mem hlt
+    exact (mem_negOf.mp hm).1
+  · rw [choose_eq o h0 V, hk]
+    simp [Except.bind, lookup, hlt]
+
+/-- with pairwise distinct identifiers: whatever entry of the table carries the returned identifier, its
+derivative is negative -/
+theorem choose_negative_of_nodup {tbl : List (K × ι)} {a : Nat} (V : Valid tbl a) (sch : Scheme) {u u2 : K}
+    (hd : DrawOK sch u u2) (hnd : (tbl.map Prod.snd).Nodup) {i : ι}
+    (h : choose o sch tbl a u u2 = .ok i) : ∀ r, (r, i) ∈ tbl → r < 0 := by
+  obtain ⟨r', i', hm, hr, hc⟩ := choose_negative o h0 V sch hd
+  rw [h] at hc
+  cases hc
+  intro r hmem
+  have : r = r' := by
+    have hinj := List.inj_on_of_nodup_map hnd hmem hm rfl
+    exact (Prod.mk.inj hinj).1
+  rw [this]; exact hr
+
+omit h0 in
+/-- the identifiers kept in the negative list are a sublist of the table's identifiers -/
+private theorem negOf_ids_sublist (tbl : List (K × ι)) :
+    ((negOf tbl).map Prod.snd).Sublist (tbl.map Prod.snd) := by
+  induction tbl with
+  | nil => simp [negOf]
+  | cons x t ih =>
+    obtain ⟨r, i⟩ := x
+    unfold negOf
+    split
+    · exact List.Sublist.cons _ ih
+    · simpa using ih
+
+/-- with pairwise distinct identifiers, "the move returns the identifier of unit `k`" and "the move selects
+unit `k`" are the same event, so every statement below about `chooseIdx` (intervals, probabilities, balance)
+is a statement about the identifier that `get_active_identifier` returns -/
+theorem choose_ok_iff {tbl : List (K × ι)} {a : Nat} (V : Valid tbl a) (sch : Scheme) {u u2 : K}
+    (hd : DrawOK sch u u2) (hnd : (tbl.map Prod.snd).Nodup) {k : Nat} (hk : k < (negOf tbl).length) :
+    choose o sch tbl a u u2 = .ok ((negOf tbl)[k]).2 ↔ chooseIdx o sch tbl a u u2 = .ok k := by
+  obtain ⟨k', hk'⟩ := chooseIdx_total o h0 V sch hd
+  have hlt := (chooseIdx_negative o h0 V sch hd hk').1
+  have hnd' : ((negOf tbl).map Prod.snd).Nodup := hnd.sublist (negOf_ids_sublist tbl)
+  rw [choose_eq o h0 V, hk']
+  simp only [Except.bind, lookup, List.getElem?_eq_getElem hlt, Except.ok.injEq]
+  constructor
+  · intro h
+    have e1 : k' < ((negOf tbl).map Prod.snd).length := by simpa using hlt
+    have e2 : k < ((negOf tbl).map Prod.snd).length := by simpa using hk
+    have h1 : ((negOf tbl).map Prod.snd)[k'] = ((negOf tbl).map Prod.snd)[k] := by simpa using h
+    exact (hnd'.getElem_inj_iff.mp h1).symm ▸ rfl
+  · intro h; subst h; rfl
+
+end ops
+
+/-! ### the excluded end points: the code does select a zero-derivative unit there -/
+
+section boundary
+variable (o : Ops K) (h0 : o.ofInt 0 = 0)
+include h0
+
+/-- **Inside first, draw `u = 0`** with the active unit first among the positive ones: if the first
+non-positive entry of the table has derivative zero, that unit is selected (`0.0 <= 0.0` in the loop).
+So `0 < u` in `choose_negative` cannot be dropped. -/
+theorem inside_zero_draw_selects_zero_rate {tbl : List (K × ι)} {a : Nat} (V : Valid tbl a)
+    (hfirst : P tbl a = 0) {i : ι} {rest : List (K × ι)} (hneg : negOf tbl = (0, i) :: rest) (u2 : K) :
+    choose o .inside tbl a 0 u2 = .ok i := by
+  rw [choose_eq o h0 V, chooseIdx_eq o h0 V]
+  simp only [specPos, hfirst, mul_zero, add_zero, hneg]
+  unfold selectIdx
+  rw [walkIdx_first _ _ _ _ (by simp [h0])]
+  simp [Except.bind, lookup]
+
+/-- **Ratio, own draw `u2 = 0`**: a zero-derivative unit heading the negative list is selected. -/
+theorem ratio_zero_draw_selects_zero_rate {tbl : List (K × ι)} {a : Nat} (V : Valid tbl a)
+    {i : ι} {rest : List (K × ι)} (hneg : negOf tbl = (0, i) :: rest) (u : K) :
+    choose o .ratio tbl a u 0 = .ok i := by
+  rw [choose_eq o h0 V, chooseIdx_eq o h0 V]
+  simp only [specPos, mul_zero, hneg]
+  unfold selectIdx
+  rw [walkIdx_first _ _ _ _ (by simp [h0])]
+  simp [Except.bind, lookup]
+
+/-- **Outside first, draw `u = 1`** (the closed end of `uniform`, reached in binary64 by rounding) with the
+active unit last among the positive ones: a zero-derivative unit heading the negative list is selected. -/
+theorem outside_unit_draw_selects_zero_rate {tbl : List (K × ι)} {a : Nat} (V : Valid tbl a)
+    (hlast : P tbl a + rate tbl a = S tbl) {i : ι} {rest : List (K × ι)} (hneg : negOf tbl = (0, i) :: rest)
+    (u2 : K) :
+    choose o .outside tbl a 1 u2 = .ok i := by
+  rw [choose_eq o h0 V, chooseIdx_eq o h0 V]
+  simp only [specPos, mul_one, hlast, sub_self, hneg]
+  unfold selectIdx
+  rw [walkIdx_first _ _ _ _ (by simp [h0])]
+  simp [Except.bind, lookup]
+
+end boundary
+
+/-! ### the selection sets are intervals; their lengths -/
+
+/-- the window `[c, d]` of positions `P a + q a * u` for which unit `k` is selected
+(inside: `[N k, N (k+1)]`; outside: its reflection) -/
+def window (sch : Scheme) (tbl : List (K × ι)) (k : Nat) : K × K :=
+  match sch with
+  | .inside => (N tbl k, N tbl (k + 1))
+  | .outside => (S tbl - N tbl (k + 1), S tbl - N tbl k)
+  | .ratio => (N tbl k, N tbl (k + 1))
+
+/-- lower end of the interval of draws selecting `k` (draw = `u` for inside/outside, `u2` for ratio) -/
+def lo (sch : Scheme) (tbl : List (K × ι)) (a k : Nat) : K :=
+  match sch with
+  | .ratio => N tbl k / S tbl
+  | _ => (max (P tbl a) (window sch tbl k).1 - P tbl a) / rate tbl a
+
+/-- upper end of the interval of draws selecting `k` -/
+def hi (sch : Scheme) (tbl : List (K × ι)) (a k : Nat) : K :=
+  match sch with
+  | .ratio => N tbl (k + 1) / S tbl
+  | _ => (min (P tbl a + rate tbl a) (window sch tbl k).2 - P tbl a) / rate tbl a
+
+/-- the probability that the scheme selects unit `k` when `a` is active: the length of the interval of
+draws (Lebesgue measure of the selection set, `sel_interval`) -/
+def prob (sch : Scheme) (tbl : List (K × ι)) (a k : Nat) : K := max 0 (hi sch tbl a k - lo sch tbl a k)
+
+/-- which draw the scheme's choice depends on, and how the interval is closed -/
+def inInterval (sch : Scheme) (l h u u2 : K) : Prop :=
+  match sch with
+  | .inside => l < u ∧ u ≤ h
+  | .outside => l ≤ u ∧ u < h
+  | .ratio => l < u2 ∧ u2 ≤ h
+
+private theorem N_le_S (tbl : List (K × ι)) (k : Nat) : N tbl k ≤ S tbl := cumB_le_total (negOf_nonneg tbl) k
+private theorem N_nonneg (tbl : List (K × ι)) (k : Nat) : 0 ≤ N tbl k := cumB_nonneg (negOf_nonneg tbl) k
+private theorem N_mono (tbl : List (K × ι)) {j k : Nat} (h : j ≤ k) : N tbl j ≤ N tbl k :=
+  cumB_mono (negOf_nonneg tbl) h
+
+section ops2
+variable (o : Ops K) (h0 : o.ofInt 0 = 0)
+include h0
+
+/-- **The set of draws selecting `k` is an interval inside the unit interval**: `(lo, hi]` for inside and
+ratio, `[lo, hi)` for outside, with `0 ≤ lo`, `hi ≤ 1`.  Hence the probability of selecting `k` is
+`prob = max 0 (hi - lo)`. -/
+theorem sel_interval {tbl : List (K × ι)} {a : Nat} (V : Valid tbl a) (sch : Scheme) {u u2 : K}
+    (hd : DrawOK sch u u2) {k : Nat} (hk : k < (negOf tbl).length) :
+    (chooseIdx o sch tbl a u u2 = .ok k ↔ inInterval sch (lo sch tbl a k) (hi sch tbl a k) u u2) ∧
+      0 ≤ lo sch tbl a k ∧ hi sch tbl a k ≤ 1 := by
+  have hq := V.pos
+  have hPS := P_add_rate_le_S V
+  have hP := P_nonneg tbl a
+  rw [chooseIdx_iff o h0 V sch hd k]
+  cases sch <;> simp only [DrawOK] at hd <;> obtain ⟨hu0, hu1⟩ := hd <;>
+    simp only [specPos, lo, hi, window, inInterval]
+  · -- inside
+    refine ⟨?_, div_nonneg (by linarith [le_max_left (P tbl a) (N tbl k)]) hq.le, ?_⟩
+    · rw [div_lt_iff₀ hq, le_div_iff₀ hq]
+      have e1 : ∀ c : K, max (P tbl a) c - P tbl a < u * rate tbl a ↔
+          (P tbl a < u * rate tbl a + P tbl a ∧ c < u * rate tbl a + P tbl a) := by
+        intro c; rw [sub_lt_iff_lt_add, max_lt_iff]
+      have e2 : ∀ d : K, u * rate tbl a ≤ min (P tbl a + rate tbl a) d - P tbl a ↔
+          (u * rate tbl a + P tbl a ≤ P tbl a + rate tbl a ∧ u * rate tbl a + P tbl a ≤ d) := by
+        intro d; rw [le_sub_iff_add_le, le_min_iff]
+      rw [e1, e2]
+      have : 0 < rate tbl a * u := mul_pos hq hu0
+      have : rate tbl a * u ≤ rate tbl a := by nlinarith
+      constructor
+      · rintro ⟨_, h1, h2⟩; refine ⟨⟨by linarith, by linarith⟩, by linarith, by linarith⟩
+      · rintro ⟨⟨_, h1⟩, _, h2⟩; exact ⟨hk, by linarith, by linarith⟩
+    · rw [div_le_one hq]; linarith [min_le_left (P tbl a + rate tbl a) (N tbl (k + 1))]
+  · -- outside
+    refine ⟨?_, div_nonneg (by linarith [le_max_left (P tbl a) (S tbl - N tbl (k + 1))]) hq.le, ?_⟩
+    · rw [div_le_iff₀ hq, lt_div_iff₀ hq]
+      have e1 : ∀ c : K, max (P tbl a) c - P tbl a ≤ u * rate tbl a ↔
+          (P tbl a ≤ u * rate tbl a + P tbl a ∧ c ≤ u * rate tbl a + P tbl a) := by
+        intro c; rw [sub_le_iff_le_add, max_le_iff]
+      have e2 : ∀ d : K, u * rate tbl a < min (P tbl a + rate tbl a) d - P tbl a ↔
+          (u * rate tbl a + P tbl a < P tbl a + rate tbl a ∧ u * rate tbl a + P tbl a < d) := by
+        intro d; rw [lt_sub_iff_add_lt, lt_min_iff]
+      rw [e1, e2]
+      have : 0 ≤ rate tbl a * u := mul_nonneg hq.le hu0
+      have : rate tbl a * u < rate tbl a := by nlinarith
+      constructor
+      · rintro ⟨_, h1, h2⟩; refine ⟨⟨by linarith, by linarith⟩, by linarith, by linarith⟩
+      · rintro ⟨⟨_, h1⟩, _, h2⟩; exact ⟨hk, by linarith, by linarith⟩
+    · rw [div_le_one hq]; linarith [min_le_left (P tbl a + rate tbl a) (S tbl - N tbl k)]
+  · -- ratio
+    have hS : 0 < S tbl := by linarith
+    refine ⟨?_, div_nonneg (N_nonneg tbl k) hS.le, ?_⟩
+    · rw [div_lt_iff₀ hS, le_div_iff₀ hS]
+      constructor
+      · rintro ⟨_, h1, h2⟩; exact ⟨by linarith, by linarith⟩
+      · rintro ⟨h1, h2⟩; exact ⟨hk, by linarith, by linarith⟩
+    · rw [div_le_one hS]; exact N_le_S tbl (k + 1)
+
+end ops2
+
+/-! ### global balance -/
+
+/-- `rate a * prob` is the overlap of the active unit's interval `[P a, P a + q a]` with the window of `k` -/
+private theorem rate_mul_prob_inside {tbl : List (K × ι)} {a : Nat} (hq : 0 < rate tbl a) (k : Nat) :
+    rate tbl a * prob .inside tbl a k = overlap (P tbl a) (rate tbl a) (N tbl k) (N tbl (k + 1)) := by
+  simp only [prob, lo, hi, window, overlap]
+  rw [← sub_div, mul_max_of_nonneg _ _ hq.le, mul_zero, mul_div_cancel₀ _ hq.ne']
+  congr 1; ring
+
+private theorem rate_mul_prob_outside {tbl : List (K × ι)} {a : Nat} (hq : 0 < rate tbl a) (k : Nat) :
+    rate tbl a * prob .outside tbl a k =
+      overlap (P tbl a) (rate tbl a) (S tbl - N tbl (k + 1)) (S tbl - N tbl k) := by
+  simp only [prob, lo, hi, window, overlap]
+  rw [← sub_div, mul_max_of_nonneg _ _ hq.le, mul_zero, mul_div_cancel₀ _ hq.ne']
+  congr 1; ring
+
+/-- sum over the positive units of the table -/
+private theorem sum_overlap (tbl : List (K × ι)) (c d : K) (h0c : 0 ≤ c) (hcd : c ≤ d) (hd : d ≤ posSum tbl) :
+    ∑ a ∈ Finset.range tbl.length,
+      (if 0 < rate tbl a then overlap (P tbl a) (rate tbl a) c d else 0) = d - c := by
+  have h1 := sumPosRec_eq_sum (fun p q => overlap p q c d) tbl 0
+  have h2 := overlap_sum tbl 0 c d hcd
+  rw [overlap_full _ _ _ h0c hcd hd] at h2
+  rw [← h2, h1]
+  apply Finset.sum_congr rfl
+  intro a _
+  simp [rate, P]
+
+private theorem sum_rate_mul (tbl : List (K × ι)) (c : K) :
+    ∑ a ∈ Finset.range tbl.length, (if 0 < rate tbl a then rate tbl a * c else 0) = posSum tbl * c := by
+  have h1 := sumPosRec_eq_sum (fun _ q => q * c) tbl 0
+  have h2 : ∀ (t : List (K × ι)) (p : K), sumPosRec (fun _ q => q * c) t p = posSum t * c := by
+    intro t
+    induction t with
+    | nil => intro p; simp [sumPosRec, posSum]
+    | cons x t ih =>
+      intro p
+      obtain ⟨r, i⟩ := x
+      unfold sumPosRec posSum
+      split
+      · rw [ih]; ring
+      · exact ih p
+  rw [← h2 tbl 0, h1]
+  apply Finset.sum_congr rfl
+  intro a _
+  simp [rate]
+
+/-- **Global balance of the lifted flow.**  For every table (any size, any insertion order, zeros allowed)
+whose derivatives sum to zero, every scheme and every unit `k` of the negative list: summed over the active
+units `a` weighted by their positive derivative `q a`, the probability of selecting `k` equals `n_k`, the
+magnitude of `k`'s derivative. -/
+theorem flow_balance (sch : Scheme) (tbl : List (K × ι)) (hz : total tbl = 0) {k : Nat}
+    (hk : k < (negOf tbl).length) :
+    ∑ a ∈ Finset.range tbl.length, (if 0 < rate tbl a then rate tbl a * prob sch tbl a k else 0) =
+      nrate tbl k := by
+  have hS := S_eq_posSum hz
+  have hN : N tbl (k + 1) - N tbl k = nrate tbl k := by rw [N_succ tbl hk]; ring
+  have hmono : N tbl k ≤ N tbl (k + 1) := N_mono tbl (Nat.le_succ k)
+  cases sch
+  · -- inside
+    rw [← hN, ← sum_overlap tbl (N tbl k) (N tbl (k + 1)) (N_nonneg tbl k) hmono (hS ▸ N_le_S tbl (k + 1))]
+    apply Finset.sum_congr rfl
+    intro a _
+    split
+    · next h => exact rate_mul_prob_inside h k
+    · rfl
+  · -- outside
+    have := sum_overlap tbl (S tbl - N tbl (k + 1)) (S tbl - N tbl k)
+      (by linarith [N_le_S tbl (k + 1)]) (by linarith) (by linarith [N_nonneg tbl k])
+    rw [show nrate tbl k = S tbl - N tbl k - (S tbl - N tbl (k + 1)) by rw [← hN]; ring, ← this]
+    apply Finset.sum_congr rfl
+    intro a _
+    split
+    · next h => exact rate_mul_prob_outside h k
+    · rfl
+  · -- ratio
+    have hprob : ∀ a, prob .ratio tbl a k = nrate tbl k / S tbl := by
+      intro a
+      have hSn : 0 ≤ S tbl := by rw [hS]; exact posSum_nonneg tbl
+      simp only [prob, lo, hi]
+      rw [← sub_div, hN, max_eq_right]
+      apply div_nonneg _ hSn
+      rw [← hN]; linarith
+    simp only [hprob]
+    rw [sum_rate_mul, ← hS]
+    by_cases hS0 : S tbl = 0
+    · have h1 := N_le_S tbl (k + 1)
+      have h2 := N_nonneg tbl k
+      rw [hS0]; simp; linarith
+    · field_simp
+
+/-! ### the probabilities as Lebesgue measures (real reading) -/
+
+section measure
+open MeasureTheory
+
+/-- the set of admissible draws (of the draw the scheme's choice depends on: `u` for inside/outside, `u2` for
+ratio; the other one is the parameter `w`) for which unit `k` is selected when `a` is active -/
+def selSet (o : Ops ℝ) (sch : Scheme) (tbl : List (ℝ × ι)) (a k : Nat) (w : ℝ) : Set ℝ :=
+  match sch with
+  | .ratio => {u2 | DrawOK .ratio w u2 ∧ chooseIdx o .ratio tbl a w u2 = .ok k}
+  | s => {u | DrawOK s u w ∧ chooseIdx o s tbl a u w = .ok k}
+
+private theorem prob_nonneg (sch : Scheme) (tbl : List (K × ι)) (a k : Nat) : 0 ≤ prob sch tbl a k := le_max_left _ _
+
+/-- **The probability of selecting `k` is `prob`**: the Lebesgue measure of the set of uniform draws for which
+the scheme selects unit `k` (with `a` active) is `prob sch tbl a k`. -/
+theorem selection_measure (o : Ops ℝ) (h0 : o.ofInt 0 = 0) {tbl : List (ℝ × ι)} {a : Nat} (V : Valid tbl a)
+    (sch : Scheme) (w : ℝ) {k : Nat} (hk : k < (negOf tbl).length) :
+    volume (selSet o sch tbl a k w) = ENNReal.ofReal (prob sch tbl a k) := by
+  have hmax : ∀ x : ℝ, ENNReal.ofReal (max 0 x) = ENNReal.ofReal x := by
+    intro x
+    rcases le_total 0 x with h | h
+    · rw [max_eq_right h]
+    · rw [max_eq_left h, ENNReal.ofReal_of_nonpos h, ENNReal.ofReal_zero]
+  cases sch
+  · have : selSet o .inside tbl a k w = Set.Ioc (lo .inside tbl a k) (hi .inside tbl a k) := by
+      ext u
+      simp only [selSet, Set.mem_ofPred_eq, Set.mem_Ioc]
+      constructor
+      · rintro ⟨hd, hc⟩
+        exact ((sel_interval o h0 V .inside hd hk).1.mp hc)
+      · rintro ⟨h1, h2⟩
+        have hd : DrawOK .inside u w := by
+          obtain ⟨_, hl, hh⟩ := sel_interval o h0 V .inside (u := 1) (u2 := w) ⟨one_pos, le_rfl⟩ hk
+          exact ⟨lt_of_le_of_lt hl h1, le_trans h2 hh⟩
+        exact ⟨hd, (sel_interval o h0 V .inside hd hk).1.mpr ⟨h1, h2⟩⟩
+    rw [this, Real.volume_Ioc, prob, hmax]
+  · have : selSet o .outside tbl a k w = Set.Ico (lo .outside tbl a k) (hi .outside tbl a k) := by
+      ext u
+      simp only [selSet, Set.mem_ofPred_eq, Set.mem_Ico]
+      constructor
+      · rintro ⟨hd, hc⟩
+        exact ((sel_interval o h0 V .outside hd hk).1.mp hc)
+      · rintro ⟨h1, h2⟩
+        have hd : DrawOK .outside u w := by
+          obtain ⟨_, hl, hh⟩ := sel_interval o h0 V .outside (u := 0) (u2 := w) ⟨le_rfl, one_pos⟩ hk
+          exact ⟨le_trans hl h1, lt_of_lt_of_le h2 hh⟩
+        exact ⟨hd, (sel_interval o h0 V .outside hd hk).1.mpr ⟨h1, h2⟩⟩
+    rw [this, Real.volume_Ico, prob, hmax]
+  · have : selSet o .ratio tbl a k w = Set.Ioc (lo .ratio tbl a k) (hi .ratio tbl a k) := by
+      ext u
+      simp only [selSet, Set.mem_ofPred_eq, Set.mem_Ioc]
+      constructor
+      · rintro ⟨hd, hc⟩
+        exact ((sel_interval o h0 V .ratio hd hk).1.mp hc)
+      · rintro ⟨h1, h2⟩
+        have hd : DrawOK .ratio w u := by
+          obtain ⟨_, hl, hh⟩ := sel_interval o h0 V .ratio (u := w) (u2 := 1) ⟨one_pos, le_rfl⟩ hk
+          exact ⟨lt_of_le_of_lt hl h1, le_trans h2 hh⟩
+        exact ⟨hd, (sel_interval o h0 V .ratio hd hk).1.mpr ⟨h1, h2⟩⟩
+    rw [this, Real.volume_Ioc, prob, hmax]
+
+/-- **Global balance, measure form**: summed over the active units weighted by their positive derivative, the
+probability (Lebesgue measure of the set of uniform draws) of selecting unit `k` equals `|derivative of k|`. -/
+theorem flow_balance_measure (o : Ops ℝ) (h0 : o.ofInt 0 = 0) (sch : Scheme) (tbl : List (ℝ × ι))
+    (hz : total tbl = 0) (w : ℝ) {k : Nat} (hk : k < (negOf tbl).length) :
+    ∑ a ∈ Finset.range tbl.length,
+      (if 0 < rate tbl a then rate tbl a * (volume (selSet o sch tbl a k w)).toReal else 0) = nrate tbl k := by
+  rw [← flow_balance sch tbl hz hk]
+  apply Finset.sum_congr rfl
+  intro a _
+  split
+  · next h =>
+    rw [selection_measure o h0 ⟨hz, h⟩ sch w hk, ENNReal.toReal_ofReal (prob_nonneg sch tbl a k)]
+  · rfl
+
+/-- non-vacuity: an `Ops ℝ` with literal zero `0` exists (only `ofInt 0` is read by the exact lifting model) -/
+noncomputable example : {o : Ops ℝ // o.ofInt 0 = 0} :=
+  ⟨⟨fun n => n, fun x => x, fun x _ => x, fun _ => 0, fun _ => false, fun _ => 0, fun x => x⟩, by simp⟩
+
+end measure
+
+/-! ### determinism -/
+
+/-- a reset forgets everything: the state after `reset` does not depend on the history, so a move
+(`reset`, insertion loop, `get_active_identifier`) depends on nothing but the table and the draws -/
 theorem reset_forgets {α ι : Type} (o : Ops α) (s s' : Lifting α ι) :
     Lifting.reset o s = Lifting.reset o s' := rfl
+
+/-- the choice is a function of the table, the active unit and the draws (for every scalar type, so also
+in binary64): stated for the record, it holds by construction of a pure function -/
+theorem choose_deterministic {α ι : Type} [Add α] [Sub α] [Mul α] [Neg α] [LT α] [DecidableLT α] [LE α]
+    [DecidableLE α] [BEq α] (o : Ops α) (sch : Scheme) (tbl tbl' : List (α × ι)) (a a' : Nat) (u u' u2 u2' : α)
+    (h1 : tbl = tbl') (h2 : a = a') (h3 : u = u') (h4 : u2 = u2') :
+    choose o sch tbl a u u2 = choose o sch tbl' a' u' u2' := by subst h1 h2 h3 h4; rfl
+
+/-- the ratio scheme's choice does not depend on which unit is active nor on that unit's draw -/
+theorem ratio_independent (o : Ops K) (h0 : o.ofInt 0 = 0) {tbl : List (K × ι)} {a a' : Nat} (V : Valid tbl a)
+    (V' : Valid tbl a') (u u' u2 : K) :
+    choose o .ratio tbl a u u2 = choose o .ratio tbl a' u' u2 := by
+  rw [choose_eq o h0 V, choose_eq o h0 V', chooseIdx_eq o h0 V, chooseIdx_eq o h0 V']
+  rfl
+
+/-! ### error outcomes -/
+
+/-- an active unit whose derivative is not positive trips the `assert` of `Lifting.insert` -/
+theorem choose_assertion (o : Ops K) (h0 : o.ofInt 0 = 0) (sch : Scheme) (tbl : List (K × ι)) {a : Nat}
+    (ha : a < tbl.length) (hq : ¬ 0 < (tbl[a]).1) (u u2 : K) :
+    choose o sch tbl a u u2 = .error .assertion := by
+  unfold choose fill
+  rw [fill_assertion o h0 a u tbl 0 a (empty o) ha (by omega) rfl hq]
+
+/-- without an active unit every scheme raises `LiftingSchemeError` (for every scalar type) -/
+theorem get_notRecorded {α ι : Type} [Add α] [Sub α] [Mul α] [Neg α] [LT α] [DecidableLT α] [LE α]
+    [DecidableLE α] [BEq α] (o : Ops α) (s : Lifting α ι) (h : s.recorded = false) (u2 : α) :
+    getInside o s = .error .notRecorded ∧ (getOutside o s).2 = .error .notRecorded ∧
+      (getOutside o s).1 = s ∧ getRatio o s u2 = .error .notRecorded := by
+  simp [getInside, getOutside, getRatio, h]
+
+/-! ### the binary64 reading: the known findings as theorems about the float model
+
+The same definitions, instantiated with native binary64 (`Ops.float`, what the driver runs and the
+correspondence compares bit for bit with the real classes), evaluated by the kernel on the witnesses of
+`known_findings/C05.json`.  The first three are the float faces of the boundary theorems above; the last three
+(fall-through to a zero-derivative last entry) have no exact counterpart — `chooseIdx_total` shows that in
+exact arithmetic the loop never falls through; in binary64 the naive running sum of the loop, the position and
+(outside, ratio) CPython's compensated `sum()` round differently. -/
+
+/-- bit pattern -> binary64 -/
+def fb (b : UInt64) : Float := Float.ofBits b
+
+/-- the move returned identifier `i` -/
+def okIs (r : Except LiftErr Nat) (i : Nat) : Bool := match r with | .ok j => j == i | _ => false
+
+/-- known finding `inside:position<=0:zero-derivative-first-entry-selected`:
+derivatives [1.0, 0.0, -1.0] (identifiers 10, 11, …), active unit number 0, `u = 0.0`,
+`u2 = 0.5`: the unit with identifier 11, whose derivative is `0.0`, is selected -/
+theorem binary64_inside_zero_draw :
+    okIs (choose Ops.float .inside
+     [(fb 4607182418800017408, 10),
+      (fb 0, 11),
+      (fb 13830554455654793216, 12)]
+      0 (fb 0) (fb 4602678819172646912)) 11 = true := by
+  decide +kernel
+
+/-- known finding `ratio:position<=0:zero-derivative-first-entry-selected`:
+derivatives [1.0, 0.0, -1.0] (identifiers 10, 11, …), active unit number 0, `u = 0.3`,
+`u2 = 0.0`: the unit with identifier 11, whose derivative is `0.0`, is selected -/
+theorem binary64_ratio_zero_draw :
+    okIs (choose Ops.float .ratio
+     [(fb 4607182418800017408, 10),
+      (fb 0, 11),
+      (fb 13830554455654793216, 12)]
+      0 (fb 4599075939470750515) (fb 0)) 11 = true := by
+  decide +kernel
+
+/-- known finding `outside:position<=0:zero-derivative-first-entry-selected`:
+derivatives [1.0, 8.673617379884035e-19, 0.0, -1.0, -8.673617379884035e-19] (identifiers 10, 11, …), active unit number 1, `u = 0.5`,
+`u2 = 0.5`: the unit with identifier 12, whose derivative is `0.0`, is selected -/
+theorem binary64_outside_absorbed_draw :
+    okIs (choose Ops.float .outside
+     [(fb 4607182418800017408, 10),
+      (fb 4336966441157787648, 11),
+      (fb 0, 12),
+      (fb 13830554455654793216, 13),
+      (fb 13560338478012563456, 14)]
+      1 (fb 4602678819172646912) (fb 4602678819172646912)) 12 = true := by
+  decide +kernel
+
+/-- known finding `inside:fall-through:zero-derivative-last-entry-selected`:
+derivatives [1.0, 1.6653345369377348e-16, -1.0, -8.326672684688674e-17, -8.326672684688674e-17, 0.0] (identifiers 10, 11, …), active unit number 1, `u = 0.9`,
+`u2 = 0.5`: the unit with identifier 15, whose derivative is `0.0`, is selected -/
+theorem binary64_inside_fall_through :
+    okIs (choose Ops.float .inside
+     [(fb 4607182418800017408, 10),
+      (fb 4370743438363066368, 11),
+      (fb 13830554455654793216, 12),
+      (fb 13589611875590471680, 13),
+      (fb 13589611875590471680, 14),
+      (fb 0, 15)]
+      1 (fb 4606281698874543309) (fb 4602678819172646912)) 15 = true := by
+  decide +kernel
+
+/-- known finding `outside:fall-through:zero-derivative-last-entry-selected`:
+derivatives [1.0, 1.6653345369377348e-16, -1.0, -8.326672684688674e-17, -8.326672684688674e-17, 0.0] (identifiers 10, 11, …), active unit number 0, `u = 0.0`,
+`u2 = 0.5`: the unit with identifier 15, whose derivative is `0.0`, is selected -/
+theorem binary64_outside_fall_through :
+    okIs (choose Ops.float .outside
+     [(fb 4607182418800017408, 10),
+      (fb 4370743438363066368, 11),
+      (fb 13830554455654793216, 12),
+      (fb 13589611875590471680, 13),
+      (fb 13589611875590471680, 14),
+      (fb 0, 15)]
+      0 (fb 0) (fb 4602678819172646912)) 15 = true := by
+  decide +kernel
+
+/-- known finding `ratio:fall-through:zero-derivative-last-entry-selected`:
+derivatives [1.0, 8.326672684688674e-17, 8.326672684688674e-17, 8.326672684688674e-17, 8.326672684688674e-17, -1.0, -8.326672684688674e-17, -8.326672684688674e-17, -8.326672684688674e-17, -8.326672684688674e-17, 0.0] (identifiers 10, 11, …), active unit number 0, `u = 0.5`,
+`u2 = 0.9999999999999999`: the unit with identifier 20, whose derivative is `0.0`, is selected -/
+theorem binary64_ratio_fall_through :
+    okIs (choose Ops.float .ratio
+     [(fb 4607182418800017408, 10),
+      (fb 4366239838735695872, 11),
+      (fb 4366239838735695872, 12),
+      (fb 4366239838735695872, 13),
+      (fb 4366239838735695872, 14),
+      (fb 13830554455654793216, 15),
+      (fb 13589611875590471680, 16),
+      (fb 13589611875590471680, 17),
+      (fb 13589611875590471680, 18),
+      (fb 13589611875590471680, 19),
+      (fb 0, 20)]
+      0 (fb 4602678819172646912) (fb 4607182418800017407)) 20 = true := by
+  decide +kernel
+
+/-! ### the exact reading over `ℚ` (`Ops.rat`) and non-vacuity -/
+
+private theorem rat_zero : Ops.rat.ofInt 0 = 0 := by simp [Ops.rat]
+
+/-- `flow_balance`, `choose_negative` for the rational reading of the model -/
+theorem flow_balance_rat (sch : Scheme) (tbl : List (ℚ × ι)) (hz : total tbl = 0) {k : Nat}
+    (hk : k < (negOf tbl).length) :
+    ∑ a ∈ Finset.range tbl.length, (if 0 < rate tbl a then rate tbl a * prob sch tbl a k else 0) =
+      nrate tbl k := flow_balance sch tbl hz hk
+
+theorem choose_negative_rat {tbl : List (ℚ × ι)} {a : Nat} (V : Valid tbl a) (sch : Scheme) {u u2 : ℚ}
+    (hd : DrawOK sch u u2) :
+    ∃ r i, (r, i) ∈ tbl ∧ r < 0 ∧ choose Ops.rat sch tbl a u u2 = .ok i :=
+  choose_negative Ops.rat rat_zero V sch hd
+
+/-- a 2+3 table with a zero entry, a duplicated magnitude and units of both signs interleaved -/
+def exTbl : List (ℚ × Nat) := [(0, 7), (3/4, 1), (-1/2, 4), (1/4, 2), (-1/2, 9), (0, 3)]
+
+/-- non-vacuity of `Valid`: both positive units of `exTbl` are admissible active units -/
+example : Valid exTbl 1 ∧ Valid exTbl 3 := by
+  refine ⟨⟨by norm_num [exTbl, total], by norm_num [exTbl, rate]⟩,
+    ⟨by norm_num [exTbl, total], by norm_num [exTbl, rate]⟩⟩
+
+/-- non-vacuity of `DrawOK` -/
+example : DrawOK .inside (1/2 : ℚ) 0 ∧ DrawOK .outside (0 : ℚ) 0 ∧ DrawOK .ratio (0 : ℚ) 1 := by
+  norm_num [DrawOK]
+
+/-- non-vacuity of the hypotheses of the three boundary theorems: `exTbl` with unit 1 active has no positive
+unit before it and a zero-derivative unit (identifier 7) heading its negative list -/
+example : P exTbl 1 = 0 ∧ negOf exTbl = (0, 7) :: [(1/2, 4), (1/2, 9), (0, 3)] ∧
+    P exTbl 3 + rate exTbl 3 = S exTbl := by
+  refine ⟨by norm_num [exTbl, P, posSum], by norm_num [exTbl, negOf], ?_⟩
+  norm_num [exTbl, P, posSum, rate, S, negOf, total]
 
 end JF.C05
